@@ -478,3 +478,209 @@ Fixpoint run_ops (st : dstate) (ops : list dop) : dstate * list rc :=
 (* the scan in sslGetCipherSpec: every slot is looked at ([mem id (g_disabled g)] in get_cipher_spec) *)
 Definition scfg_after (server : bool) (supp active : N) (st : dstate) : scfg :=
   {| g_server := server; g_supp := supp; g_active := active; g_disabled_global := d_global st; g_disabled := d_slots st |}.
+
+(* ================================================================== (D)TLS <= 1.2: ECDHE curve (RFC 4492) *)
+(* curveIdToFlag / psTestUserEcID over matrixCurveIdFlag[] (matrixsslKeys.c); flags = ssl->ecInfo.ecFlags *)
+Definition curve_flag (id : N) : N := assoc id c_curve_flags.
+Definition curve_enabled (id flags : N) : bool :=                    (* psTestUserEcID(id, flags) == PS_SUCCESS *)
+  negb (curve_flag id =? 0) && negb (N.land flags (curve_flag id) =? 0).
+
+(* tlsParseSupportedGroups (extDecode.c), server: [cfg] = the session's configured set, which stays in ssl->ecInfo.ecFlags
+   while the list is walked; acc = local ecFlags, cid = ssl->ecInfo.ecCurveId *)
+Fixpoint groups_loop (cfg : N) (l : list N) (acc cid : N) : N * N :=
+  match l with
+  | [] => (acc, cid)
+  | g :: r => if curve_enabled g cfg
+              then groups_loop cfg r (N.lor acc (curve_flag g)) (if acc =? c_IS_RECVD_EXT then g else cid)
+              else groups_loop cfg r acc cid
+  end.
+Definition parse_supported_groups (cfg : N) (l : list N) : N * N := groups_loop cfg l c_IS_RECVD_EXT 0.
+
+(* parseClientHello, ECDHE suite chosen (fix C07-default-curve-enabled: without the extension the first compiled-in curve
+   that the session enabled is taken, not blindly eccCurves[0]) *)
+Definition first_enabled_curve (flags : N) : option N := find (fun id => curve_enabled id flags) c_ecc_curve_ids.
+Definition server_ecdhe_curve (flags cid : N) : res N :=
+  if (cid =? 0) && has flags c_IS_RECVD_EXT then Err c_SSL_ALERT_HANDSHAKE_FAILURE     (* "Did not share any EC curves with client" *)
+  else
+    let cid' := if cid =? 0 then match first_enabled_curve flags with Some c => c | None => 0 end else cid in
+    if cid' =? 0 then Err c_SSL_ALERT_HANDSHAKE_FAILURE
+    else if mem cid' c_ecc_curve_ids then Ok cid'                       (* getEccParamById *)
+    else Err c_SSL_ALERT_INTERNAL_ERROR.                                (* enabled by flag but not compiled in: MATRIXSSL_ERROR *)
+
+Definition is_ecdhe_type (ty : N) : bool := (ty =? c_CS_ECDHE_RSA) || (ty =? c_CS_ECDHE_ECDSA).
+Definition is_ecdh_type (ty : N) : bool := (ty =? c_CS_ECDH_RSA) || (ty =? c_CS_ECDH_ECDSA).
+
+(* state of ecInfo after the ClientHello extensions: (ecFlags, ecCurveId) *)
+Definition ec_after_hello (cfg : N) (groups : option (list N)) : N * N :=
+  match groups with Some l => parse_supported_groups cfg l | None => (cfg, 0) end.
+
+(* validateKeyForExtensions, EC part: static-ECDH suites need the certificate's curve among the shared ones ((D)TLS 1.2) *)
+Definition keyfit12 (base : N -> bool) (active flags key_curve : N) (id : N) : bool :=
+  base id &&
+  match find_suite id with
+  | Some su => if is_ecdh_type (s_type su) && ngtd active (N.lor c_v_tls_1_2 (N.lor c_v_dtls_1_2 c_v_tls_1_3_any))
+               then negb (flags =? 0) && ((key_curve =? 0) || curve_enabled key_curve flags)
+               else true
+  | None => true
+  end.
+
+(* the ClientHello's curve list and what the server does with it once the suite is known *)
+Definition server_group (cfg : N) (groups : option (list N)) (suite : N) : res (option N) :=
+  match find_suite suite with
+  | Some su => if is_ecdhe_type (s_type su)
+               then let '(fl, cid) := ec_after_hello cfg groups in
+                    match server_ecdhe_curve fl cid with Ok c => Ok (Some c) | Err a => Err a end
+               else Ok None
+  | None => Ok None
+  end.
+
+Definition server_client_hello_g (s : server_cfg) (ecflags key_curve : N) (keyok keyfit : N -> bool) (h : client_hello)
+                                 (groups : option (list N)) : res (accepted * option N) :=
+  let fl := fst (ec_after_hello ecflags groups) in
+  let act v := set_ngtd v in
+  (* the key-fitness test sees the negotiated version: computed per candidate version by the caller of choose_suite *)
+  match server_client_hello s keyok (fun id =>
+          match server_negotiate_version (sv_ver s) (h_ver h) (if has (v_supp (sv_ver s)) c_v_tls_1_3_any then got13 h else false) with
+          | Ok v => keyfit12 keyfit (act v) fl key_curve id
+          | Err _ => keyfit id
+          end) h with
+  | Err a => Err a
+  | Ok (Acc13 v su) => Ok (Acc13 v su, None)
+  | Ok (AccLegacy v su e) =>
+      match server_group ecflags groups su with
+      | Err a => Err a
+      | Ok g => Ok (AccLegacy v su e, g)
+      end
+  end.
+
+(* client: parseServerKeyExchange, ECDHE part + tlsVerify's algorithm checks (fix C07-ske-curve-offered) *)
+Record ske := { k_curve_type : N; k_curve : N;
+                k_alg : option N;            (* SignatureAndHashAlgorithm ((D)TLS 1.2 only) *)
+                k_point_ok : bool;           (* oracle: psEccX963ImportKey accepts the point for that curve *)
+                k_sig_ok : bool }.           (* oracle: psVerifySig's verdict *)
+Record ske_cfg := { q_tls13_hello : bool;    (* SUPP_VER(v_tls_1_3_any): supported_groups was written from tls13SupportedGroups *)
+                    q_groups13 : list N;     (* tls13SupportedGroups[] (non-empty slots) *)
+                    q_ecflags : N;           (* ssl->ecInfo.ecFlags = what the legacy hello listed *)
+                    q_sigalgs : list N;      (* ssl->supportedSigAlgs[] = signature_algorithms we sent *)
+                    q_active : N;
+                    q_rsa_suite : bool;      (* SSL_FLAGS_DHE_WITH_RSA *)
+                    q_dsa_suite : bool }.    (* SSL_FLAGS_DHE_WITH_DSA (ECDSA suites) *)
+
+Definition client_offered_group (q : ske_cfg) (id : N) : bool :=
+  if q_tls13_hello q then mem id (q_groups13 q) else curve_enabled id (q_ecflags q).
+
+Definition tls_sigalg_hashlen (a : N) : N := assoc a c_tls_sigalg_hashlen.
+
+(* tlsVerify up to the signature itself *)
+Definition tls_verify_alg (q : ske_cfg) (alg : option N) (sig_ok : bool) : res unit :=
+  let r := if has (q_active q) (N.lor c_v_tls_1_2 (N.lor c_v_dtls_1_2 c_v_tls_1_3_any)) && has (q_active q) c_v_tls_negotiated then
+             match alg with
+             | None => Err c_SSL_ALERT_DECODE_ERROR
+             | Some a => if negb (mem a (q_sigalgs q)) then Err c_SSL_ALERT_ILLEGAL_PARAMETER      (* "signature algorithm we did not offer" *)
+                         else if tls_sigalg_hashlen a =? 0 then Err c_SSL_ALERT_DECODE_ERROR
+                         else Ok (q_rsa_suite q || mem a c_tls_rsa_sigalgs)
+             end
+           else Ok (q_rsa_suite q) in
+  match r with
+  | Err a => Err a
+  | Ok use_rsa =>
+      if negb use_rsa && q_rsa_suite q then Err c_SSL_ALERT_DECODE_ERROR
+      else if use_rsa && q_dsa_suite q then Err c_SSL_ALERT_DECODE_ERROR
+      else if sig_ok then Ok tt else Err c_SSL_ALERT_DECRYPT_ERROR
+  end.
+
+Definition client_ske (q : ske_cfg) (k : ske) : res unit :=
+  if negb (k_curve_type k =? 3) then Err c_SSL_ALERT_ILLEGAL_PARAMETER
+  else if negb (mem (k_curve k) c_ecdhe_groups) then Err c_SSL_ALERT_ILLEGAL_PARAMETER
+  else if negb (client_offered_group q (k_curve k)) then Err c_SSL_ALERT_ILLEGAL_PARAMETER
+  else if negb (k_curve k =? c_namedgroup_x25519) && negb (mem (k_curve k) c_ecc_curve_ids) then Err c_SSL_ALERT_ILLEGAL_PARAMETER
+  else if negb (k_point_ok k) then (if k_curve k =? c_namedgroup_x25519 then Err c_SSL_ALERT_ILLEGAL_PARAMETER else Err c_SSL_ALERT_DECODE_ERROR)
+  else tls_verify_alg q (k_alg k) (k_sig_ok k).
+
+(* ================================================================== (D)TLS 1.2: SignatureAndHashAlgorithm *)
+(* HASH_SIG_MASK(hash, sig) on a 16-bit SignatureAndHashAlgorithm *)
+Definition hash_sig_mask (alg : N) : N :=
+  let h := N.shiftl 1 (N.land (N.shiftr alg 8) 7) in
+  if N.land alg 255 =? c_HASH_SIG_RSA then h else N.shiftl h 8.
+
+(* tlsParseSignatureAlgorithms (server): (hashSigAlg = shared with our list, peerSigAlg = everything the client listed) *)
+Fixpoint parse_sigalgs (supported l : list N) (shared peer : N) : N * N :=
+  match l with
+  | [] => (shared, peer)
+  | a :: r => parse_sigalgs supported r (if mem a supported then N.lor shared (hash_sig_mask a) else shared) (N.lor peer (hash_sig_mask a))
+  end.
+
+(* peerSupportsSigAlg / weSupportSigAlg / upgradeSigAlg / chooseSigAlgInt (tlsSigVer.c); algorithms are the library's OIDs,
+   None = PS_UNSUPPORTED_FAIL *)
+Definition oid_mask (o : N) : N :=
+  if o =? c_OID_MD5_RSA_SIG then c_HASH_SIG_MD5_RSA_MASK else if o =? c_OID_SHA1_RSA_SIG then c_HASH_SIG_SHA1_RSA_MASK
+  else if o =? c_OID_SHA256_RSA_SIG then c_HASH_SIG_SHA256_RSA_MASK else if o =? c_OID_SHA384_RSA_SIG then c_HASH_SIG_SHA384_RSA_MASK
+  else if o =? c_OID_SHA512_RSA_SIG then c_HASH_SIG_SHA512_RSA_MASK else if o =? c_OID_SHA1_ECDSA_SIG then c_HASH_SIG_SHA1_ECDSA_MASK
+  else if o =? c_OID_SHA256_ECDSA_SIG then c_HASH_SIG_SHA256_ECDSA_MASK else if o =? c_OID_SHA384_ECDSA_SIG then c_HASH_SIG_SHA384_ECDSA_MASK
+  else if o =? c_OID_SHA512_ECDSA_SIG then c_HASH_SIG_SHA512_ECDSA_MASK else 0.
+Definition peer_supports (o : option N) (mask : N) : bool :=
+  match o with Some a => negb (N.land mask (oid_mask a) =? 0) | None => false end.
+Definition is_ecdsa_oid (o : N) : bool :=
+  (o =? c_OID_SHA1_ECDSA_SIG) || (o =? c_OID_SHA256_ECDSA_SIG) || (o =? c_OID_SHA384_ECDSA_SIG) || (o =? c_OID_SHA512_ECDSA_SIG).
+Definition we_support (o : option N) (keyalg : N) : bool :=
+  match o with
+  | None => false
+  | Some a =>
+      if keyalg =? c_OID_RSA_KEY_ALG then
+        if (a =? c_OID_MD2_RSA_SIG) || (a =? c_OID_MD5_RSA_SIG) then false
+        else if a =? c_OID_SHA1_RSA_SIG then f_USE_SHA1 else if a =? c_OID_SHA256_RSA_SIG then f_USE_SHA256
+        else if a =? c_OID_SHA384_RSA_SIG then f_USE_SHA384 else if a =? c_OID_SHA512_RSA_SIG then f_USE_SHA512 else false
+      else if keyalg =? c_OID_ECDSA_KEY_ALG then
+        if a =? c_OID_SHA1_ECDSA_SIG then f_USE_SHA1 else if a =? c_OID_SHA256_ECDSA_SIG then f_USE_SHA256
+        else if a =? c_OID_SHA384_ECDSA_SIG then f_USE_SHA384 else if a =? c_OID_SHA512_ECDSA_SIG then f_USE_SHA512 else false
+      else false
+  end.
+Definition can_use (o : option N) (keyalg mask : N) : bool := we_support o keyalg && peer_supports o mask.
+Definition upgrade_sigalg (o : option N) (keyalg : N) : option N :=
+  match o with
+  | None => None
+  | Some a =>
+      if keyalg =? c_OID_RSA_KEY_ALG then
+        if (a =? c_OID_MD2_RSA_SIG) || (a =? c_OID_MD5_RSA_SIG) || (a =? c_OID_SHA1_RSA_SIG) then Some c_OID_SHA256_RSA_SIG
+        else if a =? c_OID_SHA256_RSA_SIG then Some c_OID_SHA384_RSA_SIG
+        else if a =? c_OID_SHA384_RSA_SIG then Some c_OID_SHA512_RSA_SIG
+        else if a =? c_OID_SHA512_RSA_SIG then Some c_OID_SHA256_RSA_SIG else None
+      else if keyalg =? c_OID_ECDSA_KEY_ALG then
+        if a =? c_OID_SHA1_ECDSA_SIG then Some c_OID_SHA256_ECDSA_SIG
+        else if a =? c_OID_SHA256_ECDSA_SIG then Some c_OID_SHA384_ECDSA_SIG
+        else if a =? c_OID_SHA384_ECDSA_SIG then Some c_OID_SHA512_ECDSA_SIG
+        else if a =? c_OID_SHA512_ECDSA_SIG then Some c_OID_SHA256_ECDSA_SIG else None
+      else None
+  end.
+Definition ecdsa_to_rsa (a : N) : N :=
+  if a =? c_OID_SHA1_ECDSA_SIG then c_OID_SHA1_RSA_SIG else if a =? c_OID_SHA256_ECDSA_SIG then c_OID_SHA256_RSA_SIG
+  else if a =? c_OID_SHA384_ECDSA_SIG then c_OID_SHA384_RSA_SIG else if a =? c_OID_SHA512_ECDSA_SIG then c_OID_SHA512_RSA_SIG
+  else c_OID_SHA256_RSA_SIG.
+Definition rsa_to_ecdsa (a : N) : N :=
+  if a =? c_OID_SHA1_RSA_SIG then c_OID_SHA1_ECDSA_SIG else if a =? c_OID_SHA256_RSA_SIG then c_OID_SHA256_ECDSA_SIG
+  else if a =? c_OID_SHA384_RSA_SIG then c_OID_SHA384_ECDSA_SIG else if a =? c_OID_SHA512_RSA_SIG then c_OID_SHA512_ECDSA_SIG
+  else c_OID_SHA256_ECDSA_SIG.
+Definition insecure_sigalg (a keyalg keysize hashlen : N) : bool :=          (* psIsInsecureSigAlg *)
+  (a =? c_OID_MD2_RSA_SIG) || (a =? c_OID_MD5_RSA_SIG) || (a =? c_OID_SHA1_RSA_SIG) || (a =? c_OID_SHA1_ECDSA_SIG)
+  || ((keyalg =? c_OID_RSA_KEY_ALG) && ((hashlen =? 0) || (keysize <? hashlen + 11))).
+
+(* chooseSigAlgInt(certSigAlg, key, keySize, keyAlgorithm, peerSigAlgs): ServerKeyExchange / CertificateVerify algorithm *)
+Definition choose_sigalg_int (cert keyalg keysize mask : N) : option N :=
+  let a0 := if keyalg =? c_OID_RSA_KEY_ALG then (if is_ecdsa_oid cert then ecdsa_to_rsa cert else cert)
+            else if keyalg =? c_OID_ECDSA_KEY_ALG then (if is_ecdsa_oid cert then cert else rsa_to_ecdsa cert)
+            else cert in
+  let hl := assoc a0 c_oid_hashlen in
+  if hl =? 0 then None                                                      (* psSigAlgToHashLen < 0 is returned *)
+  else if insecure_sigalg a0 keyalg keysize hl || negb (can_use (Some a0) keyalg mask) then
+    let a1 := upgrade_sigalg (Some a0) keyalg in
+    if can_use a1 keyalg mask then a1
+    else let a2 := upgrade_sigalg a1 keyalg in
+         if can_use a2 keyalg mask then a2
+         else Some cert                                                     (* "Fallback to certificate sigAlg" *)
+  else Some a0.
+
+(* parseCertificateVerify (server, (D)TLS 1.2): the algorithm must be among the shared ones *)
+Definition server_cv_alg (shared alg : N) : res unit :=
+  if N.land shared (hash_sig_mask alg) =? 0 then Err c_SSL_ALERT_DECODE_ERROR
+  else let h := N.shiftr alg 8 in
+       if (h =? 2) || (h =? 4) || (h =? 5) || (h =? 6) then Ok tt else Err c_SSL_ALERT_DECODE_ERROR.
